@@ -149,12 +149,15 @@ def judge_mc(ctx, jobs, res):
             if key == "timed" and ctx.thorough and r.coverage0:
                 ctx.inconclusive("actions never taken in the timed model: %s" % r.coverage0)
         else:
-            if r.timed_out or r.error:
+            viol = r.violated
+            if not viol and re.search(r"Temporal propert(y|ies) .*violated", r.out):
+                viol = "temporal"
+            if r.timed_out or (r.error and not viol):
                 ctx.inconclusive("Register MC (%s must violate %s): %s" % (what, expect, r.error or "timeout"))
                 ok = False
-            elif r.violated != expect:
+            elif viol != expect:
                 ctx.inconclusive("the named deviation %s does not violate %s on the model (got %s): the specification does not say what it is meant to say"
-                                 % (what, expect, r.violated))
+                                 % (what, expect, viol))
                 ok = False
             else:
                 ctx.log("MC %-10s deviation '%s' violates %s as intended (%d states)" % (key, what, expect, r.distinct))
@@ -184,7 +187,7 @@ def scaled_register(ctx):
 def gen(ctx, devs, level, enabled, path):
     """exhaustive histories of <= k steps + seeded random longer ones"""
     cands = "MCCandsBe" if level == "be" else "MCLoopCands"
-    k = ctx.pick(3, 3) if level == "be" else 3
+    k = ctx.pick(3, 4) if level == "be" else 3
     extra = '  Level = "%s"\n  MaxSteps = %%d' % level
     tmp = path + ".all"
     g = ctx.tlc("Register_Gen", cfg_text=cfg("GenSpec", "MCAlias2", cands, enabled, 100, 2, 0, devs=devs, inv="GenConsistent", extra=extra % k),
@@ -229,6 +232,26 @@ def be_level(ctx, scaled, devs, hist_on, hist_off, label="be"):
     return g
 
 
+def lead_repro_run(c, scaled, thorough):
+    return c.gotest("registry/consul", BE_FILES, "^TestVerifX01Leads$", timeout=300, race=thorough,
+                    env={"VERIF_X01_RACE_ROUNDS": 40 if thorough else 10}, extra_files={"registry/consul/register.go": scaled})
+
+
+def lead_repro(ctx, g):
+    """consequences of UnsyncShutdown that no replayed history can contain (the call never returns); reported, never judged"""
+    if isinstance(g, Exception) or g is None or g.summary is None:
+        ctx.log("lead reproduction did not complete (not judged)")
+        return
+    s = g.summary
+    race = "DATA RACE" in g.out
+    ctx.log("LEAD reproduction: Register that drops an alias after DeregisterAll blocks for ever: %s; Register concurrent with DeregisterAll: %d of %d rounds left a caller blocked%s"
+            % (s.get("register_after_deregisterall_blocks"), s.get("concurrent_calls_hung", 0), s.get("concurrent_rounds", 0),
+               ("; the race detector reports a data race on be.dereg" if race else "; race detector: no report") if ctx.thorough else ""))
+    ctx.cover(lead_reproduction={"register_after_deregisterall_blocks": s.get("register_after_deregisterall_blocks"),
+                                 "concurrent_calls_hung": s.get("concurrent_calls_hung"), "rounds": s.get("concurrent_rounds"),
+                                 "data_race_reported": race if ctx.thorough else None})
+
+
 def run(ctx):
     ctx.assumptions += [
         "universe: own service 'fabio' (enabled / disabled), aliases a, b and the own name used as an alias; stimuli: Register calls / override texts with register= options (also on routes deleted again, also texts with a syntax error), the agent forgetting a service, failing register requests, DeregisterAll, table changes after DeregisterAll",
@@ -265,6 +288,9 @@ def run(ctx):
             % (pl.summary.get("after_bad"), pl.summary.get("active_after_bad"), pl.summary.get("after_adel"), pl.summary.get("active_after_adel")))
     leads = [d for d in DEVS if devs[d]]
     ctx.cover(leads=leads)
+    if devs["UnsyncShutdown"]:
+        cl = sub_ctx(ctx, "leads")
+        side.go("leads", lambda: lead_repro_run(cl, scaled, ctx.thorough))
 
     # ---- S->C: histories for exactly this instance of the specification
     rnd = random.Random(ctx.seed)
@@ -288,7 +314,7 @@ def run(ctx):
             return
         ex, sim = r
         if level == "be":
-            cap = ctx.pick(170, 100000)
+            cap = ctx.pick(170, 3500)
             if len(ex) > cap:
                 ex = rnd.sample(ex, cap)
             sel = ex + sim
@@ -296,8 +322,10 @@ def run(ctx):
             no = [l for l in ex + sim if '"shutdown"' not in l]
             sh = [l for l in ex if '"shutdown"' in l and json.loads(l)["steps"][-1]["kind"] == "cand" and json.loads(l)["steps"][-2]["kind"] == "shutdown"]
             cap = ctx.pick(36, 330)
+            must = [l for l in no if [st["id"] for st in json.loads(l)["steps"]] in (["a", "bad", "a"], ["a", "adel", "a"], ["own", "none", "ab"])]
             if len(no) > cap:
                 no = rnd.sample(no, cap)
+            no = must + [l for l in no if l not in must]
             # the rig of the real update loop cannot be restarted: one history with DeregisterAll, at the end
             sel = no + (rnd.sample(sh, 1) if sh else [])
         with open(path, "w") as fh:
@@ -417,6 +445,8 @@ def run(ctx):
                 % (s.get("interval"), s.get("restore"), s.get("gap"), s.get("ttl"), gr.wall))
         ctx.cover("real", evaluations=1)
         ctx.take_failures(gr, "real")
+    if devs["UnsyncShutdown"]:
+        lead_repro(ctx, sres.get("leads"))
     judge_mc(ctx, jobs, mcpool.wait())
     for d in leads:
         ctx.log("LEAD: the real code exhibits the named deviation %s (see spec/Register.tla; the documented design without it satisfies the property it violates)" % d)
